@@ -93,7 +93,7 @@ theorem tgt_lt (shape : List Nat) (hs : ∀ d ∈ shape, 0 < d) (i : Nat) (hi : 
 theorem erodeImg_getD (dt : DT) (G : Img Int) (sup : List (List Int × Int)) (i : Nat)
     (hi : i < shapeSize G.shape) :
     (erodeImg dt G sup).data.getD i 0 = erodeAt dt G sup (unravelI G.shape i) := by
-  simp only [erodeImg, erodeModel]
+  simp only [erodeImg]
   exact getD_map_allPos G.shape _ i 0 hi
 
 /-- (E') universal property of the model erosion, flat form -/
